@@ -529,8 +529,24 @@ func c10R2(p *core.Prog, r *core.Report, rule string) {
 	{
 		var lock ssa.Instruction
 		core.Calls(del, func(c ssa.CallInstruction) {
-			if _, op := core.MutexOp(c); op == "lock" && lock == nil {
+			if lock != nil {
+				return
+			}
+			if _, op := core.MutexOp(c); op == "lock" {
 				lock = c.(ssa.Instruction)
+				return
+			}
+			// a helper that takes the lock and hands back the release (`unlock := reg.refTagLock(s); defer unlock()`)
+			if h := core.CalleeFn(c); h != nil && p.InModule(h) && len(h.Blocks) > 0 && len(h.Blocks) < 20 {
+				locks := false
+				core.Calls(h, func(hc ssa.CallInstruction) {
+					if _, op := core.MutexOp(hc); op == "lock" {
+						locks = true
+					}
+				})
+				if _, isCall := c.(*ssa.Call); locks && isCall {
+					lock = c.(ssa.Instruction)
+				}
 			}
 		})
 		again := false
